@@ -160,6 +160,10 @@ type CallInfo struct {
 	Ctx     context.Context
 	// set by the Before hook:
 	ShortWrite int // Write only: write this many bytes before failing with the hook's error
+	// FailAfter (Close only): perform the real call first, then report the
+	// hook's error — a publish that took effect but reported failure (e.g. the
+	// directory fsync after the rename failed).
+	FailAfter bool
 }
 
 type CallRec struct {
@@ -336,6 +340,9 @@ func (w *traceWriter) Write(p []byte) (int, error) {
 func (w *traceWriter) Close() error {
 	ci, idx, err := w.t.begin("Close", w.ptr, 0, 0, w.id, nil)
 	if err != nil {
+		if ci.FailAfter {
+			w.w.Close()
+		}
 		w.t.end(ci, idx, 0, err, true)
 		return err
 	}
